@@ -4,7 +4,7 @@
 (* compose), and the algebraic laws are checked on the recorded values themselves. *)
 EXTENDS Units, TraceLib
 VARIABLE l
-tvars == <<probe, l>>
+tvars == <<l>>
 Ev == Rec[l]
 
 T_Conv == /\ Ev.ev = "Conv"
@@ -24,8 +24,8 @@ T_CSpeed == /\ Ev.ev = "CSpeed"
 T_CEnergy == /\ Ev.ev = "CEnergy"
              /\ Ev.ok /\ Ev.eu = RateEnergyUnit[Ev.ru]
              /\ SClose(Ev.res, CreateEnergy(Ev.rate, Ev.ru, Ev.dist, Ev.du), 2000)
-TInit == l = 1 /\ probe = <<"distance", "meters", "meters">>
-TNext == l <= Len(Rec) /\ l' = l + 1 /\ UNCHANGED probe /\ (T_Conv \/ T_CTime \/ T_CSpeed \/ T_CEnergy)
+TInit == l = 1
+TNext == l <= Len(Rec) /\ l' = l + 1 /\ (T_Conv \/ T_CTime \/ T_CSpeed \/ T_CEnergy)
 TSpec == TInit /\ [][TNext]_tvars
 Track == TrackPos(l)
 NotStop == NotStopped(l)
